@@ -28,7 +28,7 @@ func init() {
 	hx.Register(&hx.Prop{
 		ID: "C08",
 		Rule: "exhaustive blocks: (1) all 64 subsets of the response keys {200,201,2XX,4XX,404,default} × 18 status codes (incl. 99,100,599,600,0,-1 and the four skipped codes) × strict × GET/HEAD, " +
-			"each entry tagged by its own required header so that the entry chosen is observable; (2) header kinds (string, integer, boolean, untyped, array, object with write-only property, described by content) × raw values × required × present/absent × options, pairs of failing headers, the ignored Content-Type header, a non-canonical declared name; " +
+			"each entry tagged by its own required header so that the entry chosen is observable (response without headers, and response carrying every tag header but one: rejected exactly when that entry is selected), other class keys (1XX,3XX,5XX,6XX,2xx,XXX) × boundary codes; (2) header kinds (string, integer, boolean, untyped, array, object with write-only property, described by content) × raw values × required × present/absent × options, pairs of failing headers, the ignored Content-Type header, a non-canonical declared name; " +
 			"(3) 9 content maps × 10 Content-Type values × body kinds; (4) object schemas with all subsets of required ⊆ {a,ro,wo,z} × all key subsets of {a,ro,wo,x} × null/non-null write-only value × additionalProperties {absent,false,schema} × options, at top level, nested under a property and inside an array; " +
 			"then a seeded random stream of response maps, headers, schemas of depth ≤ 3 and schema-directed values (valid and mutated). " +
 			"A case is non-trivial when the model reports at least one non-default branch (skip, selection kind, option in effect, header/body outcome, schema flags).",
@@ -421,26 +421,42 @@ func c08JSON(v any) string { b, _ := json.Marshal(v); return string(b) }
 var c08JSONHdr = []any{[]any{"Content-Type", "application/json"}}
 
 func genC08(ctx *hx.Ctx, emit func(hx.Case)) {
-	r := ctx.Rng
+	// hx.NewRng(seed) starts at seed*γ and steps by γ, so the streams of consecutive seeds are one draw apart;
+	// re-seeding from a mixed output of ctx.Rng gives unrelated streams per VERIF_SEED (still derived from it only).
+	r := hx.NewRng(ctx.Rng.U64())
 	// (1) status selection: every entry tagged by its own required header
 	keys := []string{"200", "201", "2XX", "4XX", "404", "default"}
 	statuses := []int{200, 201, 204, 299, 301, 304, 307, 308, 404, 418, 499, 500, 99, 100, 599, 600, 0, -1}
+	tag := func(k string) string { return "X-" + strings.ToUpper(k[:1]) + strings.ToLower(k[1:]) }
 	for _, sub := range c08Subsets(keys) {
 		resps := []any{}
 		for _, k := range sub {
-			resps = append(resps, c08Resp(k.(string), []any{c08Hdr("X-"+strings.ToUpper(k.(string)[:1])+strings.ToLower(k.(string)[1:]), true, c08S("type", "string"), c08Val("v"))}, nil))
+			resps = append(resps, c08Resp(k.(string), []any{c08Hdr(tag(k.(string)), true, c08S("type", "string"), c08Val("v"))}, nil))
 		}
 		for _, st := range statuses {
 			for o := 0; o < 2; o++ {
 				emit(c08Case("GET", st, resps, []any{}, "", c08Err, o))
 			}
 			emit(c08Case("HEAD", st, resps, []any{}, "", c08Err, 1))
+			// the response carries every tag header but one: rejected exactly when that entry is the one selected
+			for _, miss := range sub {
+				hd := []any{}
+				for _, k := range sub {
+					if k != miss {
+						hd = append(hd, []any{tag(k.(string)), "v"})
+					}
+				}
+				emit(c08Case("GET", st, resps, hd, "", c08Err, 1))
+			}
 		}
 	}
 	// other class patterns
 	for _, k := range []string{"1XX", "3XX", "5XX", "6XX", "2xx", "XXX"} {
-		for _, st := range []int{100, 199, 302, 399, 500, 599, 600, 699, 200} {
-			emit(c08Case("GET", st, []any{c08Resp(k, []any{c08Hdr("X-K", true, c08S("type", "string"), c08Val("v"))}, nil)}, []any{}, "", c08Err, 1))
+		for _, st := range []int{100, 101, 199, 302, 399, 500, 599, 600, 699, 200} {
+			for o := 0; o < 2; o++ {
+				emit(c08Case("GET", st, []any{c08Resp(k, []any{c08Hdr("X-K", true, c08S("type", "string"), c08Val("v"))}, nil)}, []any{}, "", c08Err, o))
+				emit(c08Case("GET", st, []any{c08Resp(k, []any{c08Hdr("X-K", true, c08S("type", "string"), c08Val("v"))}, nil)}, []any{[]any{"X-K", "v"}}, "", c08Err, o))
+			}
 		}
 	}
 	// (2) headers
@@ -839,6 +855,51 @@ func c08Random(r *hx.Rng, kinds []c08HK) hx.Case {
 
 // ---------- shrinking ----------
 
+func c08SmallerSchemas(sm map[string]any) []sj {
+	var out []sj
+	cp := func() sj {
+		m := sj{}
+		for a, b := range sm {
+			m[a] = b
+		}
+		return m
+	}
+	for _, k := range []string{"properties", "required"} {
+		for _, n := range dropEach(jlist(sm[k])) {
+			m := cp()
+			if len(n) == 0 {
+				delete(m, k)
+			} else {
+				m[k] = n
+			}
+			out = append(out, m)
+		}
+	}
+	for _, k := range []string{"nullable", "readOnly", "writeOnly", "maxLength", "maximum", "addl", "items"} {
+		if v, ok := sm[k]; ok && v != nil && v != false {
+			m := cp()
+			delete(m, k)
+			out = append(out, m)
+		}
+	}
+	for i, p := range jlist(sm["properties"]) {
+		kv := jlist(p)
+		if len(kv) != 2 {
+			continue
+		}
+		if sub, ok := kv[1].(map[string]any); ok {
+			for _, ns := range c08SmallerSchemas(sub) {
+				m := cp()
+				np := append([]any{}, jlist(sm["properties"])...)
+				np[i] = []any{kv[0], ns}
+				m["properties"] = np
+				out = append(out, m)
+			}
+		}
+	}
+	return out
+}
+
 func shrinkC08(c hx.Case) []hx.Case {
 	var out []hx.Case
 	resps := jlist(c["responses"])
@@ -868,6 +929,49 @@ func shrinkC08(c hx.Case) []hx.Case {
 		x := cloneCase(c)
 		x["hdrs"] = n
 		out = append(out, x)
+	}
+	// smaller schemas of the content entries (one property, one required name or one flag less)
+	for i, rv := range resps {
+		rm := c08Map(rv)
+		cs := jlist(rm["content"])
+		for j, cv := range cs {
+			cm := c08Map(cv)
+			sm, ok := cm["schema"].(map[string]any)
+			if !ok {
+				continue
+			}
+			for _, ns := range c08SmallerSchemas(sm) {
+				x := cloneCase(c)
+				nr := append([]any{}, resps...)
+				ncs := append([]any{}, cs...)
+				ncs[j] = sj{"mime": cm["mime"], "schema": ns}
+				m2 := sj{}
+				for a, b := range rm {
+					m2[a] = b
+				}
+				m2["content"] = ncs
+				nr[i] = m2
+				x["responses"] = nr
+				out = append(out, x)
+			}
+		}
+	}
+	// smaller JSON body (one key less), when the body is the JSON text of the decoded value
+	if bd := c08Map(c["bodyDec"]); jstr(bd, "k") == "val" {
+		if vm, ok := bd["v"].(map[string]any); ok && jstr(c, "body") == c08JSON(vm) {
+			for k := range vm {
+				nv := sj{}
+				for a, b := range vm {
+					if a != k {
+						nv[a] = b
+					}
+				}
+				x := cloneCase(c)
+				x["bodyDec"] = c08Val(nv)
+				x["body"] = c08JSON(nv)
+				out = append(out, x)
+			}
+		}
 	}
 	for _, k := range []string{"strict", "excludeBody", "woOff", "multi", "readFails"} {
 		if jbool(c, k) {
